@@ -402,38 +402,60 @@ L1_DRIVER = r"""
 #include <boost/multi/adaptors/blas/iamax.hpp>
 #include <complex>
 namespace multi = boost::multi;
-using cplx = std::complex<double>;
 static inline auto mk0() { return multi::layout_t<0>{multi::monostate{}, multi::monostate{}, 0, 1}; }
 static inline auto mk1(long s0, long o0, long n0) { return multi::layout_t<1>{mk0(), s0, o0, n0}; }
-#define VEC multi::subarray<cplx, 1> x(mk1(x0, 0, n*x0), xb), y(mk1(y0, 0, n*y0), yb)
-#define LP cplx* xb, long x0, cplx* yb, long y0, long n, double al, cplx* rp, double* dp
-extern "C" void l_axpy(LP) { VEC; multi::blas::axpy_n(cplx{al, 0}, x.begin(), n, y.begin()); }
-extern "C" void l_copy(LP) { VEC; multi::blas::copy_n(x.begin(), n, y.begin()); }
-extern "C" void l_swap(LP) { VEC; multi::blas::swap_n(x.begin(), n, y.begin()); }
-extern "C" void l_scal(LP) { VEC; multi::blas::scal_n(cplx{al, 0}, x.begin(), n); }
-extern "C" void l_dotu(LP) { VEC; multi::blas::context c; multi::blas::dot_n(&c, x.begin(), n, y.begin(), rp); }
-extern "C" void l_dotc_y(LP) { VEC; multi::blas::context c; multi::blas::dot_n(&c, x.begin(), n, multi::blas::conj(y).begin(), rp); }
-extern "C" void l_dotc_x(LP) { VEC; multi::blas::context c; multi::blas::dot_n(&c, multi::blas::conj(x).begin(), n, y.begin(), rp); }
-extern "C" void l_nrm2(LP) { VEC; multi::blas::nrm2_n(x.begin(), n, dp); }
-extern "C" void l_asum(LP) { VEC; multi::blas::asum_n(x.begin(), n, dp); }
-extern "C" long l_iamax(LP) { VEC; return multi::blas::iamax_n(x.begin(), n); }
+template<class T> struct real_of { using type = T; };
+template<class T> struct real_of<std::complex<T>> { using type = T; };
+#define VEC(T) multi::subarray<T, 1> x(mk1(x0, 0, n*x0), xb), y(mk1(y0, 0, n*y0), yb)
+#define LP(T) T* xb, long x0, T* yb, long y0, long n, typename real_of<T>::type al, T* rp, typename real_of<T>::type* dp
+#define L1(S, T) \
+extern "C" void l_axpy_##S(LP(T)) { VEC(T); multi::blas::axpy_n(T{al}, x.begin(), n, y.begin()); } \
+extern "C" void l_copy_##S(LP(T)) { VEC(T); multi::blas::copy_n(x.begin(), n, y.begin()); } \
+extern "C" void l_swap_##S(LP(T)) { VEC(T); multi::blas::swap_n(x.begin(), n, y.begin()); } \
+extern "C" void l_scal_##S(LP(T)) { VEC(T); multi::blas::scal_n(T{al}, x.begin(), n); } \
+extern "C" void l_dot_##S(LP(T)) { VEC(T); multi::blas::context c; multi::blas::dot_n(&c, x.begin(), n, y.begin(), rp); } \
+extern "C" void l_nrm2_##S(LP(T)) { VEC(T); multi::blas::nrm2_n(x.begin(), n, dp); } \
+extern "C" void l_asum_##S(LP(T)) { VEC(T); multi::blas::asum_n(x.begin(), n, dp); } \
+extern "C" long l_iamax_##S(LP(T)) { VEC(T); return multi::blas::iamax_n(x.begin(), n); }
+#define L1C(S, T) \
+extern "C" void l_dotcy_##S(LP(T)) { VEC(T); multi::blas::context c; multi::blas::dot_n(&c, x.begin(), n, multi::blas::conj(y).begin(), rp); } \
+extern "C" void l_dotcx_##S(LP(T)) { VEC(T); multi::blas::context c; multi::blas::dot_n(&c, multi::blas::conj(x).begin(), n, y.begin(), rp); }
+L1(z, std::complex<double>) L1C(z, std::complex<double>)
+L1(c, std::complex<float>)  L1C(c, std::complex<float>)
+L1(d, double)
+L1(s, float)
 """
 
-# wrapper -> (Fortran routine, positions of (n, x, incx, y, incy) in its argument list (None = absent), which operand is x of the routine)
-L1_SPEC = {
-    "l_axpy": ("zaxpy_", dict(n=0, x=2, incx=3, y=4, incy=5), "xy", "y := alpha x + y"),
-    "l_copy": ("zcopy_", dict(n=0, x=1, incx=2, y=3, incy=4), "xy", "y := x"),
-    "l_swap": ("zswap_", dict(n=0, x=1, incx=2, y=3, incy=4), "xy", "x <-> y"),
-    "l_scal": ("zscal_", dict(n=0, x=2, incx=3), "x", "x := alpha x"),
-    "l_nrm2": ("dznrm2_", dict(n=0, x=1, incx=2), "x", "||x||"),
-    "l_asum": ("dzasum_", dict(n=0, x=1, incx=2), "x", "sum |x_i|"),
-    "l_iamax": ("izamax_", dict(n=0, x=1, incx=2), "x", "argmax |x_i|"),
-    # zdotc(n, X, incX, Y, incY) = sum conj(X_i) Y_i : the conjugated operand must be the routine's first vector
-    "l_dotc_y": ("zdotc_", dict(n=0, x=1, incx=2, y=3, incy=4), "yx", "sum x_i conj(y_i)"),
-    "l_dotc_x": ("zdotc_", dict(n=0, x=1, incx=2, y=3, incy=4), "xy", "sum conj(x_i) y_i"),
-    # dotu is issued as a 1 x n matrix-vector product: zgemv('N', 1, n, 1, X, incX (as lda), Y, incY, 0, r, 1)
-    "l_dotu": ("zgemv_", dict(n=2, x=4, incx=5, y=6, incy=7), "xy*", "sum x_i y_i"),
-}
+L1_TYPES = {"z": 16, "c": 8, "d": 8, "s": 4}
+
+
+def l1_spec(S):
+    """wrapper -> (Fortran routine, positions of (n, x, incx[, y, incy]) in its argument list, operand order, meaning) for element type prefix S"""
+    cplx = S in "zc"
+    nrm = {"z": "dznrm2_", "c": "scnrm2_", "d": "dnrm2_", "s": "snrm2_"}[S]
+    asum = {"z": "dzasum_", "c": "scasum_", "d": "dasum_", "s": "sasum_"}[S]
+    spec = {
+        "l_axpy": (S + "axpy_", dict(n=0, x=2, incx=3, y=4, incy=5), "xy", "y := alpha x + y"),
+        "l_copy": (S + "copy_", dict(n=0, x=1, incx=2, y=3, incy=4), "xy", "y := x"),
+        "l_swap": (S + "swap_", dict(n=0, x=1, incx=2, y=3, incy=4), "xy", "x <-> y"),
+        "l_scal": (S + "scal_", dict(n=0, x=2, incx=3), "x", "x := alpha x"),
+        "l_nrm2": (nrm, dict(n=0, x=1, incx=2), "x", "||x||"),
+        "l_asum": (asum, dict(n=0, x=1, incx=2), "x", "sum |x_i|"),
+        "l_iamax": ("i" + S + "amax_", dict(n=0, x=1, incx=2), "x", "argmax |x_i|"),
+    }
+    if S == "s":
+        # the single precision real dot is issued as a 1 x n matrix-vector product too (core.hpp)
+        spec["l_dot"] = ("sgemv_", dict(n=2, x=4, incx=5, y=6, incy=7), "xy*", "sum x_i y_i")
+        return spec
+    if cplx:
+        # zdotc(n, X, incX, Y, incY) = sum conj(X_i) Y_i : the conjugated operand must be the routine's first vector
+        spec["l_dotcy"] = (S + "dotc_", dict(n=0, x=1, incx=2, y=3, incy=4), "yx", "sum x_i conj(y_i)")
+        spec["l_dotcx"] = (S + "dotc_", dict(n=0, x=1, incx=2, y=3, incy=4), "xy", "sum conj(x_i) y_i")
+        # dotu is issued as a 1 x n matrix-vector product: xgemv('N', 1, n, 1, X, incX (as lda), Y, incY, 0, r, 1)
+        spec["l_dot"] = (S + "gemv_", dict(n=2, x=4, incx=5, y=6, incy=7), "xy*", "sum x_i y_i")
+    else:
+        spec["l_dot"] = (S + "dot_", dict(n=0, x=1, incx=2, y=3, incy=4), "xy", "sum x_i y_i")
+    return spec
 
 
 def level1(rep, wd):
@@ -443,56 +465,58 @@ def level1(rep, wd):
     text = irval.emit_ir(src, src[:-4] + ".ll", defines=("-DNDEBUG", "-fno-vectorize", "-fno-slp-vectorize", "-mllvm", "-inline-threshold=1000000"))
     funcs, structs = irval.parse_module(text)
     ev = irval.Evaluator(funcs, structs)
-    routines = {v[0] for v in L1_SPEC.values()}
-    ev.record_external = lambda c: c in routines
     rep.units.add("l1.cpp")
     n = 0
-    for fn, (routine, pos, order, meaning) in sorted(L1_SPEC.items()):
-        for xs, ys in itertools.product(("1", ">1"), repeat=2):
-            if "y" not in pos and ys == ">1":
-                continue
-            env = {"x0": P.const(1) if xs == "1" else 2 + A("xp"), "y0": P.const(1) if ys == "1" else 2 + A("yp")}
-            signs = {"xb": POS, "yb": POS, "dxy": POS, "xp": NONNEG, "yp": NONNEG, "nn": NONNEG, "rp": POS, "dp": POS}
-            cnt = 1 + A("nn")
-            args = [A("xb"), env["x0"], A("xb") + A("dxy"), env["y0"], cnt, irval.atom("float", "al"), A("rp"), A("dp")]
-            key = "B13.l1:%s[incx%s%s]" % (fn[2:], xs, (" incy" + ys) if "y" in pos else "")
-            n += 1
-            try:
-                ev.run(fn, args, signs)
-            except irval.Inconclusive as e:
-                rep.inconclusive(key, "B13.l1", str(e))
-                continue
-            except irval.AssertFires as e:
-                rep.violated(key, "B13.l1", "%s aborts on a valid vector pair: %s" % (fn[2:], e), dict())
-                continue
-            calls = [c for c in ev.extcalls if c[0] in routines]
-            if len(calls) != 1 or calls[0][0] != routine:
-                rep.violated(key, "B13.l1", "%s (%s): expected one call of %s, got %s" % (fn[2:], meaning, routine, [c[0] for c in calls]), dict())
-                continue
-            vals, der = calls[0][1], calls[0][2]
+    for S in sorted(L1_TYPES):
+        spec = l1_spec(S)
+        routines = {v[0] for v in spec.values()}
+        ev.record_external = lambda c, routines=routines: c in routines
+        for fn0, (routine, pos, order, meaning) in sorted(spec.items()):
+            fn = fn0 + "_" + S
+            for xs, ys in itertools.product(("1", ">1"), repeat=2):
+                if "y" not in pos and ys == ">1":
+                    continue
+                env = {"x0": P.const(1) if xs == "1" else 2 + A("xp"), "y0": P.const(1) if ys == "1" else 2 + A("yp")}
+                signs = {"xb": POS, "yb": POS, "dxy": POS, "xp": NONNEG, "yp": NONNEG, "nn": NONNEG, "rp": POS, "dp": POS}
+                cnt = 1 + A("nn")
+                args = [A("xb"), env["x0"], A("xb") + A("dxy"), env["y0"], cnt, irval.atom("float", "al"), A("rp"), A("dp")]
+                key = "B13.l1:%s<%s>[incx%s%s]" % (fn0[2:], S, xs, (" incy" + ys) if "y" in pos else "")
+                n += 1
+                try:
+                    ev.run(fn, args, signs)
+                except irval.Inconclusive as e:
+                    rep.inconclusive(key, "B13.l1", str(e))
+                    continue
+                except irval.AssertFires as e:
+                    rep.violated(key, "B13.l1", "%s aborts on a valid vector pair: %s" % (fn0[2:], e), dict())
+                    continue
+                calls = [c for c in ev.extcalls if c[0] in routines]
+                if len(calls) != 1 or calls[0][0] != routine:
+                    rep.violated(key, "B13.l1", "%s (%s): expected one call of %s, got %s" % (fn0[2:], meaning, routine, [c[0] for c in calls]), dict())
+                    continue
+                vals, der = calls[0][1], calls[0][2]
 
-            def arg(i):
-                return der[i] if der[i] is not None else vals[i]
-            want_x, want_incx, want_y, want_incy = A("xb"), env["x0"], A("xb") + A("dxy"), env["y0"]
-            if order.startswith("yx"):
-                want_x, want_incx, want_y, want_incy = want_y, want_incy, want_x, want_incx
-            bad = []
-            if arg(pos["n"]) != cnt:
-                bad.append("count %r, expected %r" % (arg(pos["n"]), cnt))
-            if arg(pos["x"]) != want_x or arg(pos["incx"]) != want_incx:
-                bad.append("first vector (%r, inc %r), expected (%r, inc %r)" % (arg(pos["x"]), arg(pos["incx"]), want_x, want_incx))
-            if "y" in pos and (arg(pos["y"]) != want_y or arg(pos["incy"]) != want_incy):
-                bad.append("second vector (%r, inc %r), expected (%r, inc %r)" % (arg(pos["y"]), arg(pos["incy"]), want_y, want_incy))
-            if order.endswith("*"):
-                # the 1 x n matrix-vector form: trans 'N', one row, unit result stride
-                if not (arg(0).is_const() and int(arg(0).const_value()) == 78 and arg(1) == P.const(1) and arg(10) == P.const(1) and arg(9) == A("rp")):
-                    bad.append("the matrix-vector form is not ('N', 1, n, ..., r, 1)")
-            if bad:
-                rep.violated(key, "B13.l1", "%s (%s): the %s call does not denote the operands: %s" % (fn[2:], meaning, routine, "; ".join(bad)), dict(problems=bad))
-            else:
-                rep.ok(key, "B13.l1", None)
+                def arg(i):
+                    return der[i] if der[i] is not None else vals[i]
+                want_x, want_incx, want_y, want_incy = A("xb"), env["x0"], A("xb") + A("dxy"), env["y0"]
+                if order.startswith("yx"):
+                    want_x, want_incx, want_y, want_incy = want_y, want_incy, want_x, want_incx
+                bad = []
+                if arg(pos["n"]) != cnt:
+                    bad.append("count %r, expected %r" % (arg(pos["n"]), cnt))
+                if arg(pos["x"]) != want_x or arg(pos["incx"]) != want_incx:
+                    bad.append("first vector (%r, inc %r), expected (%r, inc %r)" % (arg(pos["x"]), arg(pos["incx"]), want_x, want_incx))
+                if "y" in pos and (arg(pos["y"]) != want_y or arg(pos["incy"]) != want_incy):
+                    bad.append("second vector (%r, inc %r), expected (%r, inc %r)" % (arg(pos["y"]), arg(pos["incy"]), want_y, want_incy))
+                if order.endswith("*"):
+                    # the 1 x n matrix-vector form: trans 'N', one row, unit result stride
+                    if not (arg(0).is_const() and int(arg(0).const_value()) == 78 and arg(1) == P.const(1) and arg(10) == P.const(1) and arg(9) == A("rp")):
+                        bad.append("the matrix-vector form is not ('N', 1, n, ..., r, 1)")
+                if bad:
+                    rep.violated(key, "B13.l1", "%s<%s> (%s): the %s call does not denote the operands: %s" % (fn0[2:], S, meaning, routine, "; ".join(bad)), dict(problems=bad))
+                else:
+                    rep.ok(key, "B13.l1", None)
     return n
-
 
 # -----------------------------------------------------------------------------------------------------------------
 # B13.trsm: the dispatch of blas::trsm(side, fill, diagonal, alpha, a, b) — solves a x = alpha b (left) or x a = alpha b (right) in place of b, with the
@@ -1022,7 +1046,7 @@ def run(tier):
     ntr = trsm_rule(rep, wd)
     rep.need_instances("B13.trsm cases", ntr, 48)
     nl1 = level1(rep, wd)
-    rep.need_instances("B13.l1 wrapper cases", nl1, 25)
+    rep.need_instances("B13.l1 wrapper cases", nl1, 100)
     rep.extra["distinct_blas_calls"] = {"%s %s" % k: v for k, v in sorted(leaves.items())}
     rep.extra["rejected_although_expressible"] = nrej_expressible
     rep.need_instances("B13 cases evaluated", ncases, 300)
